@@ -731,6 +731,10 @@ impl ActionContext for &Server {
         self.database.graph().new_patch()
     }
 
+    fn has_key(&self, key: &Key) -> bool {
+        self.database.graph().get_node_id(key).is_some()
+    }
+
     fn llm_query(&self, prompt: String, model: &Model) -> String {
         if Path::new("./.iwe").exists() {
             fs::write("./.iwe/prompt.md", &prompt).expect("Unable to write file");
